@@ -5,6 +5,7 @@ CONSTANTS
  Honest <- H3
  FixF3 = TRUE
  FixF4 = TRUE
+ FixF15 = TRUE
  Prog <- P_switch3
  UseDFrom <- None
  DFromWho <- AllParties
